@@ -1577,13 +1577,21 @@ class TrajectoryStore:
             file_index = 0
             group_index = index
 
-            # If this is a merged store, find the right file and index into the
-            # right group in that file.
+            # Find the right file (there are several for a merged store) and
+            # the index into the right group in that file. The cumulative
+            # trajectory counts are taken from the live trajectory dimensions
+            # rather than from the counts recorded when the files were opened,
+            # because a file opened in APPEND mode grows as trajectories are
+            # added.
             if nc_files.size_index is not None:
-                file_index = bisect.bisect_left(nc_files.size_index, index + 1)
-                if file_index >= len(nc_files.size_index):
+                size_index = list(
+                    itertools.accumulate(len(td) for td in nc_files.traj_dim)
+                )
+                file_index = bisect.bisect_right(size_index, index)
+                if file_index >= len(size_index):
                     return
-                group_index = index - nc_files.size_index[file_index]
+                if file_index > 0:
+                    group_index = index - size_index[file_index - 1]
             group = nc_files.groups[fs_name][file_index]
 
             # Read data from NetCDF variables.
